@@ -4,7 +4,7 @@
     goroutine has finished; [execs] = modules whose file has been executed; [load_ok] = Project.load finds
     no module error; [acyclic]/[cyclic] speak about the part of the load graph the packages reach. *)
 From Coq Require Import List Arith Bool.
-From Dawn Require Import Loader.Model Loader.Run Loader.Final.
+From Dawn Require Import Loader.Model Loader.Run Loader.Final Loader.Term.
 Import ListNotations.
 
 Theorem executed_at_most_once :
@@ -16,6 +16,16 @@ Theorem loader_deadlock_free :
   forall loads roots s, reachable loads roots s -> ~ final s -> exists tid, step loads s tid <> None.
 Proof. exact t_deadlock_free. Qed.
 Print Assumptions loader_deadlock_free.
+
+(* every run is finite (explicit bound from the finite set U of module files the packages can reach), and a
+   run that cannot be extended has every goroutine finished: Load terminates under every interleaving *)
+Theorem loader_terminates :
+  forall loads roots (U : list label), NoDup U -> (forall m, from_roots loads roots m -> In m U) ->
+  exists bound, forall sched s,
+    run loads (init roots) sched = Some s ->
+    length sched <= bound /\ ((forall tid, step loads s tid = None) -> final s).
+Proof. exact t_terminates. Qed.
+Print Assumptions loader_terminates.
 
 Theorem acyclic_loads_succeed :
   forall loads roots, acyclic loads roots ->
